@@ -208,6 +208,12 @@ class Planner:
         steps.append(_ex(rng, bp, diag=_diag_gen(rng), out=out))
         steps.append(_ex(rng, bp))  # the plain spelling: a re-run on unchanged inputs
         steps.append(_ex(rng, bp, mode="check", out=rng.choice(OUT_SPELLINGS)))
+        if self.prop == "C10":
+            # ... and from a sub-directory of the workspace: a relative `-o` is relative to the workspace
+            # root wherever pavexc is started (no --diagnostics here: that path IS relative to the cwd)
+            st = _ex(rng, bp, mode="check", out=rng.choice(["sdk", "./sdk", "sdk/"]))
+            st["cwd"] = "simapp"
+            steps.append(st)
         if rng.chance(1, 2):
             bad = rng.choice(self.invalid)
             steps.append(_ex(rng, bad, out=rng.choice(OUT_SPELLINGS)))
